@@ -603,7 +603,15 @@ class Gen(object):
         op = rng.choice(['and', 'or'])
         e = self.expr(scope, avoid=(n,))
         kw = 'while' if (rng.random() < 0.25 and not in_loop and self.dec_ok(2)) else 'if'
-        self.emit(ind, '%s q(%s) %s (%s := %s) %s q(%s):' % (kw, self.readable(scope), op, n, e, op, n))
+        if kw == 'if' and rng.random() < 0.25:
+            # a comparison chain behaves like 'and': the body runs only when every operand was evaluated.  (Not as a
+            # while test: the harness evaluates that test as a value, and an opaque comparison result whose truth is
+            # asked twice may answer differently the second time - an artefact of the oracle, not of Python.)
+            op = 'and'
+            self.emit(ind, '%s v(%s) < v() < (%s := %s):' % (kw, self.readable(scope), n, e))
+            self.features.add('walrus_in_comparison_chain_test')
+        else:
+            self.emit(ind, '%s q(%s) %s (%s := %s) %s q(%s):' % (kw, self.readable(scope), op, n, e, op, n))
         self.features.add('walrus_in_boolean_chain_test_' + kw)
         was = n in scope.definite
 
